@@ -27,7 +27,7 @@ func newExec(p *Program, mode string) *Exec {
 		L:         &Layouts{tb: tb, cache: map[string]*Layout{}, abstract: map[string]*types.Struct{}, bv: mode == "bv"},
 		heapSorts: map[string]Sort{}, notes: map[string]int{}, typeIDs: map[string]int{}, globals: map[string]*Value{},
 		frames: map[*ssa.Function]*writeSet{}, siteNames: map[ssa.Instruction]string{},
-		constSliceArr: map[string]*Term{}, usedExterns: map[string]bool{},
+		constSliceArr: map[string]*Term{}, usedExterns: map[string]bool{}, boxes: map[int]*Value{},
 	}
 	if !ex.L.bv {
 		ex.allocBase = tb.Const("allocBase", SInt)
